@@ -18,6 +18,7 @@ A_SYNC = "sync tree: the same function contracts are proved with sequential sema
 AUD_H11 = {"script": "audit/h11_contract.py", "kind": "assumption", "what": "A-h11: h11 client event sequence independent of segmentation, Data events concatenate to the framed body, send() wire parses back (bounded: 14 response shapes, all single cuts + seeded multi-cuts)"}
 AUD_H2 = {"script": "audit/h2_contract.py", "kind": "assumption", "what": "A-h2: h2 event sequence independent of segmentation and in frame order with the frame's stream id, window arithmetic, id allocation, queue clearing, acknowledge never raises, GOAWAY closes (bounded: one scripted conversation, all single cuts + seeded multi-cuts)"}
 AUD_URL = {"script": "audit/url_roundtrip.py", "kind": "property", "what": "C19 round trip URL(bytes(u)) == u and well-formed Host value on the real code (bounded: component-pool product, URLs <= 64 bytes, + 3000 seeded random tails)"}
+AUD_RT = {"script": "audit/runtime_primitives.py", "kind": "assumption", "what": "A-runtime (primitives): Event set-before-wait / fail_after timeout signal / threading wait result, Semaphore initial == max == bound, Lock mutual exclusion, CancelScope(shield=True) against scope cancellation - trio, anyio on asyncio and on trio, threading (bounded: one scenario per clause)"}
 AUD_TRIO = {"script": "audit/trio_handshake_errors.py", "kind": "assumption", "what": "A-runtime.5: trio reports a TLS handshake failure as BrokenResourceError (one in-memory handshake against a self-signed certificate)"}
 
 
@@ -117,6 +118,7 @@ prop(
     "C16",
     title="timeouts applied to the right operations",
     explanation="call-site preconditions: every connect/TLS start gets extensions.timeout.connect, every read .read, every write .write, the pool wait .pool; absent means None; pass-through wrappers forward their timeout argument; SOCKS negotiation gets one of the configured values; in the three back ends every blocking runtime call runs under settimeout / fail_after of exactly the given value (trio: inf for None) and a deadline becomes the *Timeout class",
+    audits=[AUD_RT],
     trusted=[A_NET, A_SYNC],
     not_decided=["the instant at which PoolTimeout fires (runtime primitive, assumed)"],
 )
@@ -148,6 +150,7 @@ prop(
     "C07",
     title="waiting requests make progress whenever capacity exists",
     explanation="safety core of the statement: the assignment pass scans every queued request in arrival order (no early exit), leaves a request queued only when nothing is available, the pool is at its limit and nothing idle can be evicted; the pass is re-run (under the pool lock) on every arrival, on every exceptional exit of handle_request and on every response close (shielded); a request waits only after a pass, outside the pool lock, on its own event, and only while unassigned; assign_to_connection publishes the connection before setting the event and wait_for_connection tests it before waiting (no lost wake-up); the retry on ConnectionNotAvailable clears the assignment first",
+    audits=[AUD_RT],
     trusted=[A_NET, A_IFACE, A_SHIELD, A_SYNC, "A-runtime: Event.set before Event.wait is not lost; wait returns only when the flag is set or raises PoolTimeout"],
     not_decided=["the liveness sentence ('no schedule leaves a caller blocked for ever') is a paper corollary of the safety obligations under fairness and a responsive server: not machine-checked"],
 )
@@ -155,6 +158,7 @@ prop(
     "C08",
     title="the synchronous pool is thread-safe",
     explanation="lock-discipline obligations on the sync tree (and the async twin): every mutation of the pool's request queue and connection list, every assignment pass, and the pool reset in close() happen while the pool's thread lock is held; waiting, sending and closing happen outside it; connection state transitions (HTTP/1.1 gate and _response_closed, connect/tunnel/SOCKS establishment state) are written under their own lock; assign_to_connection/wait_for_connection hand-off order; list.remove calls are proved not to raise ValueError given the lock discipline",
+    audits=[AUD_RT],
     trusted=[A_NET, A_IFACE, A_SYNC, "GIL: single bytecodes are atomic; preemption inside h11/h2/threading internals not modelled"],
     not_decided=["interleavings between lock regions are not enumerated: the obligations are the guarded_by discipline plus per-region contracts, not a schedule exploration", "HTTP/2 state machine shared by threads without a common lock: not modelled"],
 )
@@ -165,7 +169,7 @@ prop(
     explanation="events are queued only on the stream id they carry (dispatch loop walks h2's list completely, in order, unknown streams dropped) and are handed out FIFO per stream; a stream id is taken only after acquiring a slot, the stream starts with one slot until SETTINGS arrive, SETTINGS move permits by exactly the change of the limit (loop invariant), every registered stream releases its slot exactly once on every exit; no suspension between stream id allocation and HEADERS; wait-for obligations: no blocking call while holding the read lock, no network read while own events are queued; credit of dropped / abandoned DATA",
     trusted=[A_H2, A_NET, A_SHIELD, A_SYNC],
     not_decided=["'every other stream runs to completion' as liveness: decided only as absence of wait-for edges under the read lock and of credit leaks"],
-    audits=[AUD_H2],
+    audits=[AUD_RT, AUD_H2],
 )
 prop(
     "C13",
